@@ -9,6 +9,8 @@ strings; names are arbitrary lists of code points.
 import SkNet.Lemmas.SvgFinal
 import SkNet.Spec.Svg
 
+set_option linter.unusedSimpArgs false
+
 namespace SkNet.C20
 open SkNet SkNet.Svg
 
